@@ -7,6 +7,7 @@ call is repeated with the same numbers presented differently:
   f64   every float32 tensor argument is passed as float64 (exact)
   i32 / i16 / u8 / i8   every int64 tensor argument whose values fit is passed in that integer dtype
   nc    every tensor argument with >= 1 dimension is passed as a non-contiguous view of the same values
+  rg    every floating-point tensor argument requires grad (a model output that was not detached)
 
 and compared with the SAME model value.  The cast is applied at the call boundary of the real code
 (`torcheval.metrics.functional.*` and `Metric.update` of every class) by wrapping those callables for
@@ -25,7 +26,7 @@ import sys
 import torch
 
 INT_DT = {"i32": torch.int32, "i16": torch.int16, "u8": torch.uint8, "i8": torch.int8}
-QUICK_MODES = ["f64", "u8", "f64+i8", "i32", "nc"]
+QUICK_MODES = ["f64", "u8", "f64+i8", "i32", "nc", "rg"]
 MODES = QUICK_MODES + ["i16", "f64+i16", "f64+nc"]
 
 STATS = {}
@@ -44,6 +45,9 @@ def _cast_one(x, mode):
             if x.numel() == 0 or (int(x.min()) >= info.min and int(x.max()) <= info.max):
                 x = x.to(dt)
                 STATS[mode] = STATS.get(mode, 0) + 1
+        elif part == "rg" and x.is_floating_point():
+            x = x.detach().clone().requires_grad_(True)          # a tensor that is part of an autograd graph (model output)
+            STATS[mode] = STATS.get(mode, 0) + 1
         elif part == "nc" and x.ndim >= 1 and x.numel() > 0:
             big = x.repeat_interleave(2, dim=-1)
             x = big[..., ::2]
